@@ -133,6 +133,27 @@ def run(ctx, rep):
             h = tr.has_handler(filler, cls)
             rep.violation("C05.1", cons, f"{label} may hold a let constant but is never visited or resolved: the constant survives the pass", h.loc() if h else "")
 
+    # the source register of a qubit reference is re-resolved on every path (its size / alias bounds may hold constants)
+    for v, t in trs:
+        h = ix.classes[v].methods.get("visit_NamedQubit")
+        if h is None:
+            continue
+        cons = construct_of(h, "alias_from:visited-on-every-path")
+        fl = t.flows.get(h.qualname) or FuncFlow(ix, T, h)
+        cfg = CFG(h.body)
+        vnodes = []
+        for cs in T.callsites(h):
+            if cs.kind == "visit" and isinstance(cs.node, ast.Call) and cs.node.args:
+                ids, _ = fl.depends(cs.node.args[0])
+                if any(id(m) in ids and isinstance(m, ast.Attribute) and m.attr == "alias_from" for m in walk_no_nested(h.node)):
+                    n = cfg.containing_stmt_node(cs.node, h.body)
+                    if n is not None:
+                        vnodes.append(n)
+        if vnodes and cfg.must_pass_nodes(cfg.exit, vnodes):
+            rep.ok("C05.1", cons, "every returning path visits qubit.alias_from", h.loc())
+        else:
+            rep.violation("C05.1", cons, "a qubit reference can be returned without visiting its source register: `let n 2; register q[n]; foo q[0]` keeps pointing at the register sized by the constant n (overrides of n are ignored for that gate, and later passes meet a Constant where an int is expected)", h.loc(), witness="let n 2\nregister q[n]\nfoo q[0]")
+
     # ------------------------------------------------------------ C05.2
     rep.rule("C05.2", "the override lookup (keyed by the constant's name) dominates the declared-value return", floor=1)
     over_attr = None
